@@ -48,6 +48,7 @@ Inductive kind :=
 | KProbeSent (target_name : str) (outcome_ok : bool)
 | KAtTarget (t r : nat)
 | KTargetReplied (t r : nat) (status : N)
+| KTargetFailed (t r : nat) (why : N)     (* 0 transport fault, 1 cancelled by a drain, 2 client went away *)
 (* router / service *)
 | KRouted (r : nat) (svc : option nat)
 | KSvcCopy (old new : nat)
@@ -85,6 +86,7 @@ Inductive kind :=
 | KSnapCollect (svcs : list nat)
 | KSnapCreate
 | KSnapWrite
+| KSnapRename                       (* repaired snapshot: os.Rename(temp, state file) done *)
 (* identities (emitted by the trace converter when an id first appears) *)
 | KSvcName (svc : nat) (name : str)
 | KTargetName (t : nat) (name : str)
